@@ -37,7 +37,11 @@ KIND_CODE = {"ok": 0, "CollisionLoadError": 1, "AssertionError": 2, "other": 3}
 # ----------------------------------------------------------------------------------
 # independent reference (numpy only; nothing from WallGo)
 
-def nodes(N):
+def nodes(N, sp="Spectral"):
+    if sp == "Uniform":
+        rz = -1.0 + 2.0 / N + (2.0 - 2.0 / N) * np.arange(N - 1) / (N - 1)
+        rp = -1.0 + 2.0 * np.arange(N - 1) / (N - 1)
+        return rz, rp
     rz = -np.cos(np.arange(1, N) * np.pi / N)
     rp = -np.cos(np.arange(0, N - 1) * np.pi / (N - 1))
     return rz, rp
@@ -59,8 +63,8 @@ def ttil(n, y):
     return _T(n, y) - 1.0
 
 
-def cheb_mats(N):
-    rz, rp = nodes(N)
+def cheb_mats(N, sp="Spectral"):
+    rz, rp = nodes(N, sp)
     m1 = np.array([[tbar(j + 2, x) for j in range(N - 1)] for x in rz])
     m2 = np.array([[ttil(k + 1, y) for k in range(N - 1)] for y in rp])
     return m1, m2
@@ -77,40 +81,40 @@ def lagrange_matrix(xs, targets):
     return L
 
 
-def interp_mats(Ns, Nt):
+def interp_mats(Ns, Nt, sp="Spectral"):
     """values on the interior source nodes (zero at rz=+-1, rp=+1) -> values at target nodes"""
-    rzs, rps = nodes(Ns)
-    rzt, rpt = nodes(Nt)
+    rzs, rps = nodes(Ns, sp)
+    rzt, rpt = nodes(Nt, sp)
     lz = lagrange_matrix(np.concatenate(([-1.0], rzs, [1.0])), rzt)[:, 1:-1]
     lp = lagrange_matrix(np.concatenate((rps, [1.0])), rpt)[:, :-1]
     return lz, lp
 
 
-def reference_block(D, Ns, bf, Nt, br):
+def reference_block(D, Ns, bf, Nt, br, sp="Spectral"):
     """what the (N_t, br) array must hold for one pair whose file holds D on (N_s, bf)"""
     X = np.asarray(D, dtype=float)
     cur = bf
     if Nt != Ns:
         if cur == "Cardinal":
-            m1, m2 = cheb_mats(Ns)
+            m1, m2 = cheb_mats(Ns, sp)
             X = np.einsum("abjk,jJ,kK->abJK", X, m1, m2)
-        lz, lp = interp_mats(Ns, Nt)
+        lz, lp = interp_mats(Ns, Nt, sp)
         X = np.einsum("ta,ub,abjk->tujk", lz, lp, X)[..., :Nt - 1, :Nt - 1]
         cur = "Chebyshev"
     if cur != br:
-        m1, m2 = cheb_mats(Nt)
+        m1, m2 = cheb_mats(Nt, sp)
         if br == "Cardinal":
             m1, m2 = np.linalg.inv(m1), np.linalg.inv(m2)
         X = np.einsum("abjk,jJ,kK->abJK", X, m1, m2)
     return X
 
 
-def low_order_distribution(rs, P, nt):
+def low_order_distribution(rs, P, nt, sp="Spectral"):
     """delta f_b = sum_{j,k<nt} c[b,j,k] Tbar_{j+2}(x) Ttil_{k+1}(y)"""
     c = rs.normal(size=(P, nt, nt))
 
     def values(N):
-        rz, rp = nodes(N)
+        rz, rp = nodes(N, sp)
         tz = np.array([[tbar(j + 2, x) for j in range(nt)] for x in rz])
         tp = np.array([[ttil(k + 1, y) for k in range(nt)] for y in rp])
         return np.einsum("xj,yk,bjk->bxy", tz, tp, c)
@@ -129,12 +133,46 @@ def representation(c, values, N, basis):
 # ----------------------------------------------------------------------------------
 # fixtures
 
-def file_data(seed, N):
-    return np.random.default_rng(seed).normal(size=(N - 1,) * 4)
+def file_data(seed, N, special=None):
+    """the numbers of one file; `special`: zero / int / sym / range (see SPECIALS)"""
+    rs = np.random.default_rng(seed)
+    D = rs.normal(size=(N - 1,) * 4)
+    if special == "zero":
+        D = np.zeros_like(D)
+    elif special == "int":
+        D = rs.integers(-9, 10, size=D.shape)
+    elif special == "sym":
+        D = D + np.transpose(D, (2, 3, 0, 1))
+    elif special == "range":
+        D = D * 10.0 ** rs.integers(-8, 9, size=D.shape)
+    return D
+
+
+SPECIALS = [None, "zero", "int", "sym", "range"]
+SHAPE_COQ = {"ok": "ShapeOk", "smaller": "ShapeSmaller", "broadcast2d": "ShapeBroadcast",
+             "broadcast1": "ShapeBroadcast", "missing": "ShapeMissing"}
+
+
+def dataset_for(f):
+    """what is written as the dataset of one file (None: no dataset at all)"""
+    D = file_data(f["seed"], f["N"], f.get("special"))
+    shape = f.get("shape", "ok")
+    n = f["N"] - 1
+    if shape == "ok":
+        return D
+    if shape == "smaller":      # not broadcastable into the (n,n,n,n) slot
+        if n >= 3 and f["seed"] % 2 == 0:
+            return D[:2, :2, :2, :2]
+        return np.random.default_rng(f["seed"]).normal(size=(n + 1,) * 4)
+    if shape == "broadcast2d":  # lower rank: numpy would broadcast it silently
+        return D[0, 0]
+    if shape == "broadcast1":
+        return np.array([3.0])
+    return None
 
 
 def write_dir(root, spec):
-    """spec: {"a_b": {"N":7, "basis":"Chebyshev", "seed":5}, ...}"""
+    """spec: {"a_b": {"N":7, "basis":"Chebyshev", "seed":5[, "shape", "bytes", "special"]}}"""
     import h5py
     d = pathlib.Path(tempfile.mkdtemp(dir=root))
     for key, f in spec.items():
@@ -142,8 +180,11 @@ def write_dir(root, spec):
         with h5py.File(str(d / ("collisions_%s_%s.hdf5" % (p1, p2))), "w") as h:
             m = h.create_dataset("metadata", data=np.zeros(1))
             m.attrs["Basis Size"] = f["N"]
-            m.attrs["Basis Type"] = f["basis"]
-            h.create_dataset("%s, %s" % (p1, p2), data=file_data(f["seed"], f["N"]))
+            m.attrs["Basis Type"] = np.bytes_(f["basis"].encode()) if f.get("bytes") \
+                else f["basis"]
+            data = dataset_for(f)
+            if data is not None:
+                h.create_dataset("%s, %s" % (p1, p2), data=data)
     return d
 
 
@@ -153,27 +194,56 @@ def particle(name):
                            msqDerivative=lambda f: 0.0, statistics="Fermion", totalDOFs=1)
 
 
-def make_solver(N, req):
+def make_grid(N, kind="plain"):
     import WallGo
-    grid = WallGo.Grid(3, N, 1.0, 1.0)
-    return WallGo.BoltzmannSolver(grid, "Cardinal", req, "Spectral")
+    if kind == "3scales":       # unequal tails, falloff scales far from 1
+        return WallGo.Grid3Scales(3, N, 2.5, 11.0, 0.7, 83.0)
+    if kind == "uniform":
+        return WallGo.Grid(3, N, 1.0, 1.0, spacing="Uniform")
+    return WallGo.Grid(3, N, 1.0, 1.0)
 
 
-def gen_dir_spec(rng, names, Ns, basis, fault, seed0):
+def spacing_of(kind):
+    return "Uniform" if kind == "uniform" else "Spectral"
+
+
+def make_solver(N, req, grid="plain"):
+    import WallGo
+    g = grid if not isinstance(grid, str) else make_grid(N, grid)
+    return WallGo.BoltzmannSolver(g, "Cardinal", req, "Spectral")
+
+
+DS_FAULTS = {"ds_smaller": "smaller", "ds_broadcast": None, "ds_missing": "missing"}
+
+
+def gen_dir_spec(rng, names, Ns, basis, fault, seed0, first=None):
+    """`fault` may join several faults with '+' (planted in different files when possible);
+    `first` = key of the file the loader reads first (the victim with probability 1/3)"""
     spec = {}
     s = seed0
     for p1, p2 in itertools.product(names, repeat=2):
         spec["%s_%s" % (p1, p2)] = dict(N=Ns, basis=basis, seed=s)
         s += 1
-    keys = sorted(spec)
-    victim = rng.choice(keys)
-    if fault == "missing":
-        del spec[victim]
-    elif fault == "size":
-        other = rng.choice([n for n in (3, 5, 7, 9) if n != Ns])
-        spec[victim]["N"] = other
-    elif fault == "basis":
-        spec[victim]["basis"] = "Cardinal" if basis == "Chebyshev" else "Chebyshev"
+    free = sorted(spec)
+    for k, flt in enumerate(fault.split("+")):
+        if flt in ("none", "oversized", "missing_dir") or not free:
+            continue
+        if k == 0 and first in free and rng.random() < 1 / 3:
+            victim = first
+        else:
+            victim = rng.choice(free)
+        free.remove(victim)
+        if flt == "missing":
+            del spec[victim]
+        elif flt == "size":
+            other = rng.choice([n for n in (3, 5, 7, 9) if n != Ns])
+            spec[victim]["N"] = other
+        elif flt == "basis":
+            spec[victim]["basis"] = "Cardinal" if basis == "Chebyshev" else "Chebyshev"
+        elif flt == "ds_broadcast":
+            spec[victim]["shape"] = rng.choice(["broadcast2d", "broadcast1"])
+        elif flt in DS_FAULTS:
+            spec[victim]["shape"] = DS_FAULTS[flt]
     return spec, s
 
 
@@ -191,7 +261,11 @@ def gen_scenario(rng, idx):
             names = rng.sample(NAMES, rng.randint(1, 3))
             ops.append(["particles", names])
             continue
-        fault = rng.choice(["none", "none", "none", "missing", "size", "basis", "oversized"])
+        fault = rng.choice(["none", "none", "none", "missing", "size", "basis", "oversized",
+                            "ds_smaller", "ds_broadcast", "ds_missing"])
+        if fault not in ("none", "oversized") and rng.random() < 0.2:
+            fault += "+" + rng.choice(["missing", "size", "basis", "ds_smaller",
+                                       "ds_broadcast", "ds_missing"])
         if fault == "oversized":
             sizes = [n for n in (3, 5) if n < N]
             if not sizes:
@@ -206,18 +280,27 @@ def gen_scenario(rng, idx):
         # files may name more particles than the solver currently uses
         fnames = sorted(set(names) | (set(rng.sample(NAMES, 1)) if rng.random() < 0.3
                                       else set()))
-        spec, seed = gen_dir_spec(rng, fnames, Ns, basis, fault, seed)
+        spec, seed = gen_dir_spec(rng, fnames, Ns, basis, fault, seed,
+                                  first="%s_%s" % (names[0], names[0]))
         ops.append(["load", spec, fault])
     return dict(N=N, req=req, ops=ops)
 
 
 def classify(exc):
-    from WallGo.exceptions import CollisionLoadError
-    if isinstance(exc, CollisionLoadError):
+    """by IDENTITY of the class (the public WallGo.CollisionLoadError), never by name"""
+    import WallGo
+    import WallGo.exceptions
+    if WallGo.CollisionLoadError is not WallGo.exceptions.CollisionLoadError:
+        return "other"
+    if isinstance(exc, WallGo.CollisionLoadError):
         return "CollisionLoadError"
     if isinstance(exc, AssertionError):
         return "AssertionError"
     return "other"
+
+
+def exc_name(exc):
+    return "%s.%s" % (type(exc).__module__, type(exc).__name__)
 
 
 def summarize(ca, spec, N_solver, tol=1e-9):
@@ -263,7 +346,7 @@ def run_scenario(sc, root):
             detail = ""
         except Exception as e:       # noqa: BLE001
             kind = classify(e)
-            detail = "%s: %s" % (type(e).__name__, " ".join(str(e).split())[:100])
+            detail = "%s: %s" % (exc_name(e), " ".join(str(e).split())[:100])
         after = b.collisionArray
         if kind == "ok":
             last_spec = spec
@@ -343,8 +426,9 @@ def coq_scenario(sc, obs):
             ents = []
             for key, f in sorted(op[1].items()):
                 p1, p2 = key.split("_")
-                ents.append("(%d, %d, mkfile %d %s %d)" % (pid[p1], pid[p2], f["N"],
-                                                           f["basis"], f["seed"]))
+                ents.append("(%d, %d, mkfile %d %s %d %s)" % (
+                    pid[p1], pid[p2], f["N"], f["basis"], f["seed"],
+                    SHAPE_COQ[f.get("shape", "ok")]))
             ops.append("OpLoad (mkdir [%s])" % "; ".join(ents))
     exp = []
     for o in obs:
@@ -436,37 +520,49 @@ def report(ctx, what, rep, key):
     return False
 
 
-def load_joint(root, P, Ns, bf, Nt, br, seed0, names=None):
+def load_joint(root, P, Ns, bf, Nt, br, seed0, names=None, grid="plain", opts=None):
     names = names or NAMES[:P]
+    opts = opts or {}
     spec = {}
     s = seed0
     for p1, p2 in itertools.product(names, repeat=2):
-        spec["%s_%s" % (p1, p2)] = dict(N=Ns, basis=bf, seed=s)
+        spec["%s_%s" % (p1, p2)] = dict(N=Ns, basis=bf, seed=s, **opts)
         s += 1
     d = write_dir(root, spec)
-    b = make_solver(Nt, br)
+    b = make_solver(Nt, br, grid)
     b.updateParticleList([particle(n) for n in names])
-    b.loadCollisions(d)
-    shutil.rmtree(d, ignore_errors=True)
+    try:
+        b.loadCollisions(d)
+    finally:
+        shutil.rmtree(d, ignore_errors=True)
     return b, spec
 
 
-def direct_case(ctx, root, P, Ns, bf, Nt, br, seed0, pairwise):
-    case = dict(P=P, Ns=Ns, stored_basis=bf, Nt=Nt, requested_basis=br, seed0=seed0)
-    names = NAMES[:P]
+def direct_case(ctx, root, P, Ns, bf, Nt, br, seed0, pairwise, names=None, grid="plain",
+                opts=None):
+    """opts: extra per-file fields (bytes-typed basis attribute, special tensors)"""
+    names = list(names or NAMES[:P])
+    opts = dict(opts or {})
+    sp = spacing_of(grid)
+    case = dict(P=P, Ns=Ns, stored_basis=bf, Nt=Nt, requested_basis=br, seed0=seed0,
+                names=names, grid=grid, opts=opts)
     try:
-        b, spec = load_joint(root, P, Ns, bf, Nt, br, seed0)
+        b, spec = load_joint(root, P, Ns, bf, Nt, br, seed0, names=names, grid=grid,
+                             opts=opts)
     except Exception as e:       # noqa: BLE001
         report(ctx, "loading a fault-free directory raised %s: %s [%s]" % (
-            type(e).__name__, str(e)[:80], json.dumps(case)),
+            exc_name(e), str(e)[:80], json.dumps(case)),
             dict(kind="load_raises", case=case), key="fault-free-load-raises")
         return
     ca = b.collisionArray
     L = np.asarray(ca[:])
     D = np.zeros((P, Ns - 1, Ns - 1, P, Ns - 1, Ns - 1))
     for i, j in itertools.product(range(P), repeat=2):
-        D[i, :, :, j] = file_data(spec["%s_%s" % (names[i], names[j])]["seed"], Ns)
-    bucket = "P%d %s->%s %s" % (P, bf[:4], br[:4], "same" if Ns == Nt else "interp")
+        D[i, :, :, j] = file_data(spec["%s_%s" % (names[i], names[j])]["seed"], Ns,
+                                  opts.get("special"))
+    bucket = "P%d %s->%s %s%s" % (P, bf[:4], br[:4], "same" if Ns == Nt else "interp",
+                                  "" if grid == "plain" and not opts else
+                                  " " + grid + "".join(" %s=%s" % kv for kv in sorted(opts.items())))
     ctx.count("direct_action", case, bucket=bucket)
     # (i) loaded numbers: same size and basis -> exactly the file's numbers
     if Ns == Nt and bf == br and not np.array_equal(L, D):
@@ -482,13 +578,15 @@ def direct_case(ctx, root, P, Ns, bf, Nt, br, seed0, pairwise):
     # (ii) operator action on low-order distributions vs the source operator's action
     #      interpolated to the new grid points
     rs = np.random.default_rng(seed0 + 7)
-    lz, lp = interp_mats(Ns, Nt)
+    lz, lp = interp_mats(Ns, Nt, sp)
     for rep in range(2):
-        c, values = low_order_distribution(rs, P, Nt - 1)
+        c, values = low_order_distribution(rs, P, Nt - 1, sp)
         out_src = np.einsum("axybjk,bjk->axy", D, representation(c, values, Ns, bf))
         ref = np.einsum("tx,uy,axy->atu", lz, lp, out_src)
         got = np.einsum("axybjk,bjk->axy", L, representation(c, values, Nt, br))
         err = float(np.max(np.abs(got - ref)) / (np.max(np.abs(ref)) + 1e-300))
+        if opts.get("special") == "zero":
+            err = float(np.max(np.abs(got)))
         if err > 1e-8:
             a, t, u = np.unravel_index(np.argmax(np.abs(got - ref)), ref.shape)
             kind = "interp" if Ns != Nt else ("basis" if bf != br else "plain")
@@ -501,8 +599,10 @@ def direct_case(ctx, root, P, Ns, bf, Nt, br, seed0, pairwise):
             break
     # (iii) every pair against the independent per-pair reference
     for i, j in itertools.product(range(P), repeat=2):
-        refb = reference_block(D[i, :, :, j], Ns, bf, Nt, br)
+        refb = reference_block(D[i, :, :, j], Ns, bf, Nt, br, sp)
         err = float(np.max(np.abs(refb - L[i, :, :, j])) / (np.max(np.abs(refb)) + 1e-300))
+        if opts.get("special") == "zero":
+            err = float(np.max(np.abs(L[i, :, :, j])))
         if err > 1e-8:
             report(ctx, 
                 "pair (%s,%s) of the loaded array is not the transformed file data: P=%d files "
@@ -515,14 +615,16 @@ def direct_case(ctx, root, P, Ns, bf, Nt, br, seed0, pairwise):
     if pairwise and P >= 2:
         for i, j in itertools.product(range(P), repeat=2):
             seed = spec["%s_%s" % (names[i], names[j])]["seed"]
-            d1 = write_dir(root, {"x_x": dict(N=Ns, basis=bf, seed=seed)})
-            b1 = make_solver(Nt, br)
+            d1 = write_dir(root, {"x_x": dict(N=Ns, basis=bf, seed=seed, **opts)})
+            b1 = make_solver(Nt, br, grid)
             b1.updateParticleList([particle("x")])
             b1.loadCollisions(d1)
             shutil.rmtree(d1, ignore_errors=True)
             alone = np.asarray(b1.collisionArray[:])[0, :, :, 0]
             err = float(np.max(np.abs(alone - L[i, :, :, j])) /
                         (np.max(np.abs(alone)) + 1e-300))
+            if opts.get("special") == "zero":
+                err = float(np.max(np.abs(L[i, :, :, j])))
             ctx.count("pairwise_independence", dict(case=case, pair=[i, j]))
             if err > 1e-10:
                 report(ctx, 
@@ -550,7 +652,8 @@ def fault_sequences(ctx, root, rng, n):
         if first_good:
             seq.append(("none", good))
         for _ in range(rng.randint(1, 3)):
-            fault = rng.choice(["missing", "size", "basis", "oversized", "missing_dir"])
+            fault = rng.choice(["missing", "size", "basis", "oversized", "missing_dir",
+                                "ds_smaller", "ds_broadcast", "ds_missing"])
             if fault == "oversized":
                 if N == 3:
                     fault = "missing"
@@ -561,7 +664,11 @@ def fault_sequences(ctx, root, rng, n):
                 Ns = rng.choice([n_ for n_ in (5, 7) if n_ >= N])
             if P == 1 and fault in ("size", "basis"):
                 fault = "missing"
-            spec, _ = gen_dir_spec(rng, names, Ns, rng.choice(BASES), fault, 2000 + 20 * t)
+            if fault not in ("oversized", "missing_dir") and P >= 2 and rng.random() < 0.25:
+                fault += "+" + rng.choice(["missing", "size", "basis", "ds_smaller",
+                                           "ds_broadcast", "ds_missing"])
+            spec, _ = gen_dir_spec(rng, names, Ns, rng.choice(BASES), fault, 2000 + 20 * t,
+                                   first="%s_%s" % (names[0], names[0]))
             seq.append((fault, spec))
         case = dict(P=P, N=N, req=req, seq=[(f, s) for f, s in seq])
         for fault, spec in seq:
@@ -579,6 +686,8 @@ def fault_sequences(ctx, root, rng, n):
             if fault != "missing_dir":
                 shutil.rmtree(d, ignore_errors=True)
             ctx.count("fault_sequence", dict(case=case, fault=fault), bucket=fault)
+            fkey = fault.split("+")[0] if "+" not in fault else "double"
+            dsf = [f for f in fault.split("+") if f.startswith("ds_")]
             if fault == "none":
                 if err is not None:
                     report(ctx, "fault-free load raised %r" % err,
@@ -588,17 +697,21 @@ def fault_sequences(ctx, root, rng, n):
             if err is None:
                 report(ctx, "load with fault `%s` raised nothing [%s]" % (
                     fault, json.dumps(case)[:300]),
-                    dict(kind="faults", case=case, at=fault), key="fault-not-reported:" + fault)
+                    dict(kind="faults", case=case, at=fault),
+                    key=("malformed-dataset:" + dsf[0][3:]) if dsf and len(dsf) == len(
+                        fault.split("+")) else "fault-not-reported:" + fkey)
                 continue
             kind = classify(err)
             if kind != "CollisionLoadError":
                 report(ctx, 
                     "load with fault `%s` raised %s (%s) instead of CollisionLoadError; P=%d "
                     "grid N=%d files %s" % (
-                        fault, type(err).__name__, " ".join(str(err).split())[:60], P, N,
-                        {k: (v["N"], v["basis"]) for k, v in spec.items()}),
-                    dict(kind="faults", case=case, at=fault, raised=type(err).__name__),
-                    key="error-kind:" + fault)
+                        fault, exc_name(err), " ".join(str(err).split())[:60], P, N,
+                        {k: (v["N"], v["basis"], v.get("shape", "ok"))
+                         for k, v in spec.items()}),
+                    dict(kind="faults", case=case, at=fault, raised=exc_name(err)),
+                    key=("malformed-dataset:" + dsf[0][3:]) if dsf and len(dsf) == len(
+                        fault.split("+")) else "error-kind:" + fkey)
             after = b.collisionArray
             if after is not before or (before is not None and
                                        not np.array_equal(snap, np.asarray(after[:]))):
@@ -609,21 +722,353 @@ def fault_sequences(ctx, root, rng, n):
                     dict(kind="faults", case=case, at=fault), key="atomicity")
 
 
+def _action(arr, f):
+    return np.einsum("axybjk,bjk->axy", np.asarray(arr), f)
+
+
+def histories(ctx, root, rng, n):
+    """object histories on the implementation: the finite-difference estimate of the EOM
+    (only in-package caller of changeBasis on a live array), deep copies, solvers sharing a
+    grid and a particle list, the public CollisionArray entry points on a reused object,
+    setCollisionArray followed by a failing load, bInterpolate=False"""
+    import copy
+    import types
+    import WallGo
+    from WallGo.collisionArray import CollisionArray
+    from WallGo.equationOfMotion import EOM
+    for t in range(n):
+        P = rng.randint(1, 3)
+        names = rng.sample(["top", "gluon", "W", "a"], P)
+        Ns = rng.choice([5, 7])
+        Nt = rng.choice([n_ for n_ in (3, 5, 7) if n_ <= Ns])
+        bf, br = rng.choice(BASES), rng.choice(BASES)
+        seed0 = rng.randrange(10 ** 6)
+        history_case(ctx, root, dict(P=P, names=names, Ns=Ns, Nt=Nt, stored_basis=bf,
+                                     requested_basis=br, seed0=seed0))
+
+
+def history_case(ctx, root, case):
+    import copy
+    import random
+    import types
+    import WallGo
+    from WallGo.collisionArray import CollisionArray
+    from WallGo.equationOfMotion import EOM
+    P, names, Ns, Nt = case["P"], case["names"], case["Ns"], case["Nt"]
+    bf, br, seed0 = case["stored_basis"], case["requested_basis"], case["seed0"]
+    rng = random.Random(seed0)
+    if True:
+        try:
+            b, spec = load_joint(root, P, Ns, bf, Nt, br, seed0, names=names)
+        except Exception as e:      # noqa: BLE001
+            report(ctx, "loading a fault-free directory raised %s [%s]" % (
+                exc_name(e), json.dumps(case)), dict(kind="history", case=case, step="load"),
+                key="fault-free-load-raises")
+            return
+        A = b.collisionArray
+        snap = np.array(A[:], copy=True)
+        rs = np.random.default_rng(seed0 + 3)
+        f = rs.normal(size=(P, Nt - 1, Nt - 1))
+        act0 = _action(snap, f)
+
+        dead = []
+
+        def intact(step):
+            if dead:        # already reported for this history; later steps would only echo it
+                return False
+            ok = b.collisionArray is A and np.array_equal(snap, np.asarray(A[:])) and \
+                A.getBasisType() == br == b.basisN and \
+                tuple(A.polynomialData.basis[4:]) == (br, br)
+            ctx.count("history", dict(case=case, step=step), bucket=step)
+            if not ok:
+                rel = float(np.max(np.abs(_action(A[:], f) - act0)) /
+                            (np.max(np.abs(act0)) + 1e-300)) \
+                    if np.asarray(A[:]).shape == snap.shape else float("nan")
+                report(ctx,
+                       "after `%s` the solver's loaded collision array changed (label %s, "
+                       "polynomial basis %s, solver basisN %s; action on a fixed distribution "
+                       "changed by %.3g rel.); P=%d files N=%d %s -> grid N=%d %s" % (
+                           step, A.getBasisType(), tuple(A.polynomialData.basis[4:]),
+                           b.basisN, rel, P, Ns, bf, Nt, br),
+                       dict(kind="history", case=case, step=step), key="aliasing:" + step)
+                dead.append(step)
+            return ok
+
+        # (a) the finite-difference error estimate, as EOM runs it (getDeltas stubbed)
+        seen = {}
+        orig = WallGo.BoltzmannSolver.getDeltas
+
+        def fake(self, deltaF=None):
+            seen["solver"] = self
+            return None
+        WallGo.BoltzmannSolver.getDeltas = fake
+        try:
+            EOM.getBoltzmannFiniteDifference(types.SimpleNamespace(boltzmannSolver=b))
+        except Exception as e:      # noqa: BLE001
+            report(ctx, "EOM.getBoltzmannFiniteDifference raised %s: %s" % (
+                exc_name(e), str(e)[:80]), dict(kind="history", case=case, step="fd"),
+                key="fd-estimate-raises")
+        finally:
+            WallGo.BoltzmannSolver.getDeltas = orig
+        intact("fd-estimate")
+        fd = seen.get("solver")
+        if fd is not None:
+            fa = fd.collisionArray
+            okfd = fd is not b and fa is not A and fd.basisN == fa.getBasisType()
+            if okfd:
+                for i, j in itertools.product(range(P), repeat=2):
+                    fl = spec["%s_%s" % (names[i], names[j])]
+                    refb = reference_block(file_data(fl["seed"], Ns), Ns, bf, Nt,
+                                           fa.getBasisType())
+                    err = float(np.max(np.abs(refb - np.asarray(fa[:])[i, :, :, j])) /
+                                (np.max(np.abs(refb)) + 1e-300))
+                    okfd = okfd and err < 1e-8
+            if not okfd:
+                report(ctx,
+                       "the finite-difference solver of EOM.getBoltzmannFiniteDifference "
+                       "applies an array labelled %s under basisN=%s (or not the loaded "
+                       "operator in that basis); shares the spectral solver's array: %s" % (
+                           fa.getBasisType(), fd.basisN, fa is A),
+                       dict(kind="history", case=case, step="fd-copy"), key="fd-copy-basis")
+        # (b) a deep copy of the solver, then a failing load on the copy
+        b2 = copy.deepcopy(b)
+        try:
+            b2.loadCollisions(pathlib.Path(root) / "does_not_exist")
+        except Exception:      # noqa: BLE001
+            pass
+        if b2.collisionArray is None or not np.array_equal(np.asarray(b2.collisionArray[:]),
+                                                           snap):
+            report(ctx, "failed load on a deep copy of the solver lost the copy's array",
+                   dict(kind="history", case=case, step="deepcopy"), key="atomicity")
+        intact("deepcopy+failed-load")
+        # (c) a second solver on the SAME grid object and particle list loads other data
+        b3 = WallGo.BoltzmannSolver(b.grid, "Cardinal", "Cardinal" if br == "Chebyshev"
+                                    else "Chebyshev", "Spectral")
+        b3.updateParticleList(b.offEqParticles)
+        spec3, _ = gen_dir_spec(rng, names, Ns, rng.choice(BASES), "none", seed0 + 500)
+        d3 = write_dir(root, spec3)
+        try:
+            b3.loadCollisions(d3)
+        except Exception as e:      # noqa: BLE001
+            report(ctx, "second solver on a shared grid: load raised %s" % exc_name(e),
+                   dict(kind="history", case=case, step="shared-grid"),
+                   key="fault-free-load-raises")
+        shutil.rmtree(d3, ignore_errors=True)
+        intact("second-solver-shared-grid")
+        # (d) public entry points on the live array: interpolate twice, change basis and back
+        if Nt > 3:
+            small = WallGo.Grid(3, Nt - 2, 1.0, 1.0)
+            outs = []
+            for _ in range(2):
+                try:
+                    outs.append(np.asarray(
+                        CollisionArray.interpolateCollisionArray(A, small)[:]))
+                except Exception as e:      # noqa: BLE001
+                    report(ctx, "interpolateCollisionArray on a loaded array raised %s" %
+                           exc_name(e), dict(kind="history", case=case, step="interp"),
+                           key="interpolate-raises")
+                intact("interpolateCollisionArray")
+            if len(outs) == 2:
+                bad = not np.array_equal(outs[0], outs[1])
+                src_blocks = np.asarray(A[:])
+                for i, j in itertools.product(range(P), repeat=2):
+                    refb = reference_block(src_blocks[i, :, :, j], Nt, br, Nt - 2, br)
+                    err = float(np.max(np.abs(refb - outs[0][i, :, :, j])) /
+                                (np.max(np.abs(refb)) + 1e-300))
+                    bad = bad or err > 1e-8
+                if bad:
+                    report(ctx, "interpolateCollisionArray(A, smaller grid) on a loaded array "
+                           "is not the interpolation of A (or differs between two calls); "
+                           "P=%d grid N=%d -> %d basis %s" % (P, Nt, Nt - 2, br),
+                           dict(kind="history", case=case, step="interp-value"),
+                           key="interpolate-reused-object")
+        other = "Cardinal" if br == "Chebyshev" else "Chebyshev"
+        C = copy.deepcopy(A)
+        r1 = C.changeBasis(other)
+        mid = np.array(C[:], copy=True)
+        ok = r1 is C and C.getBasisType() == other
+        for i, j in itertools.product(range(P), repeat=2):
+            refb = reference_block(snap[i, :, :, j], Nt, br, Nt, other)
+            ok = ok and float(np.max(np.abs(refb - mid[i, :, :, j])) /
+                              (np.max(np.abs(refb)) + 1e-300)) < 1e-8
+        C.changeBasis(other)            # no-op
+        ok = ok and np.array_equal(mid, np.asarray(C[:]))
+        C.changeBasis(br)
+        back = np.asarray(C[:])
+        ok = ok and C.getBasisType() == br and \
+            float(np.max(np.abs(back - snap)) / (np.max(np.abs(snap)) + 1e-300)) < 1e-9
+        ctx.count("history", dict(case=case, step="changeBasis"), bucket="changeBasis-roundtrip")
+        if not ok:
+            report(ctx, "CollisionArray.changeBasis(%s) / no-op / back to %s on a copy of the "
+                   "loaded array does not give the operator in the other basis and back; P=%d "
+                   "grid N=%d" % (other, br, P, Nt),
+                   dict(kind="history", case=case, step="changeBasis"),
+                   key="changeBasis-reused-object")
+        intact("changeBasis-on-copy")
+        # (e) setCollisionArray, then a failing load
+        b4 = make_solver(Nt, br)
+        b4.updateParticleList([particle(x) for x in names])
+        b4.setCollisionArray(A)
+        bad_spec, _ = gen_dir_spec(rng, names, Ns, bf, rng.choice(
+            ["missing", "ds_missing", "ds_smaller", "ds_broadcast"]), seed0 + 900)
+        d4 = write_dir(root, bad_spec)
+        err4 = None
+        try:
+            b4.loadCollisions(d4)
+        except Exception as e:      # noqa: BLE001
+            err4 = e
+        shutil.rmtree(d4, ignore_errors=True)
+        if err4 is None or classify(err4) != "CollisionLoadError" or b4.collisionArray is not A:
+            report(ctx, "setCollisionArray(A) then a faulty load: raised %s, array kept: %s" % (
+                "nothing" if err4 is None else exc_name(err4), b4.collisionArray is A),
+                dict(kind="history", case=case, step="setCollisionArray"),
+                key="atomicity" if err4 is not None and classify(err4) == "CollisionLoadError"
+                else "error-kind:after-setCollisionArray")
+        intact("setCollisionArray+failed-load")
+        # (f) bInterpolate=False
+        dq = write_dir(root, spec)
+        try:
+            r = CollisionArray.newFromDirectory(dq, b.grid, br, b.offEqParticles,
+                                                bInterpolate=False)
+            if Ns != Nt:
+                report(ctx, "newFromDirectory(bInterpolate=False) with files N=%d on grid N=%d "
+                       "returned an array" % (Ns, Nt),
+                       dict(kind="history", case=case, step="bInterpolate"),
+                       key="fault-not-reported:no-interpolation")
+            elif not np.array_equal(np.asarray(r[:]), snap):
+                report(ctx, "newFromDirectory(bInterpolate=False) differs from the default load",
+                       dict(kind="history", case=case, step="bInterpolate"),
+                       key="loaded-numbers")
+        except Exception as e:      # noqa: BLE001
+            if Ns == Nt or classify(e) != "CollisionLoadError":
+                report(ctx, "newFromDirectory(bInterpolate=False), files N=%d grid N=%d: "
+                       "raised %s" % (Ns, Nt, exc_name(e)),
+                       dict(kind="history", case=case, step="bInterpolate"),
+                       key="error-kind:no-interpolation")
+        shutil.rmtree(dq, ignore_errors=True)
+        ctx.count("history", dict(case=case, step="bInterpolate"), bucket="bInterpolate=False")
+
+
+def manager_route(ctx, root, rng, n):
+    """the route every user takes: WallGoManager.setupWallSolver -> loadCollisions, on the real
+    manager class; only phase/hydro set-up, grid sizing and EOM construction are stand-ins"""
+    import logging
+    import types
+    import WallGo
+    from WallGo.manager import WallGoManager, WallSolverSettings
+    for t in range(n):
+        P = rng.randint(1, 3)
+        names = rng.sample(["top", "gluon", "W", "a"], P)
+        N = rng.choice([3, 5])
+        Ns = rng.choice([n_ for n_ in (5, 7) if n_ >= N])
+        bf = rng.choice(BASES)
+        seed0 = rng.randrange(10 ** 6)
+        for fault in ["none", rng.choice(["missing", "size", "basis", "ds_missing",
+                                          "ds_smaller", "ds_broadcast"])]:
+            if P == 1 and fault in ("size", "basis"):
+                fault = "missing"
+            spec, _ = gen_dir_spec(rng, names, Ns, bf, fault, seed0)
+            manager_case(ctx, root, dict(P=P, names=names, N=N, Ns=Ns, stored_basis=bf,
+                                         fault=fault, spec=spec))
+
+
+def manager_case(ctx, root, case):
+    import logging
+    import types
+    from WallGo.manager import WallGoManager, WallSolverSettings
+    P, names, N, Ns = case["P"], case["names"], case["N"], case["Ns"]
+    bf, fault, spec = case["stored_basis"], case["fault"], case["spec"]
+    if True:
+        if True:
+            d = write_dir(root, spec)
+            m = WallGoManager()
+            m.setVerbosity(logging.ERROR)
+            m.setPathToCollisionData(d)
+            m.phasesAtTn = types.SimpleNamespace(temperature=100.0)
+            m.hydrodynamics = object()
+            m.model = types.SimpleNamespace(
+                outOfEquilibriumParticles=[particle(x) for x in names])
+            m.isModelValid = lambda: True
+            grid = make_grid(N, "3scales")
+            m.buildGrid = lambda *a, **k: grid
+            m.buildEOM = lambda g, solver, mfp: types.SimpleNamespace(includeOffEq=None)
+            err = None
+            ws = None
+            try:
+                ws = m.setupWallSolver(WallSolverSettings(bIncludeOffEquilibrium=True))
+            except Exception as e:      # noqa: BLE001
+                err = e
+            shutil.rmtree(d, ignore_errors=True)
+            ctx.count("manager_route", case, bucket=fault)
+            rp = dict(kind="manager", case=case)
+            if fault == "none":
+                if err is not None:
+                    report(ctx, "WallGoManager.setupWallSolver on a fault-free directory "
+                           "raised %s: %s" % (exc_name(err), str(err)[:80]), rp,
+                           key="manager:fault-free-raises")
+                    return
+                ca = ws.boltzmannSolver.collisionArray
+                ok = ca is not None and ws.eom.includeOffEq is True and \
+                    ca.getBasisType() == ws.boltzmannSolver.basisN
+                if ok:
+                    arr = np.asarray(ca[:])
+                    for i, j in itertools.product(range(P), repeat=2):
+                        fl = spec["%s_%s" % (names[i], names[j])]
+                        refb = reference_block(file_data(fl["seed"], Ns), Ns, bf, N,
+                                               ca.getBasisType())
+                        ok = ok and arr.shape[0] == P and float(
+                            np.max(np.abs(refb - arr[i, :, :, j])) /
+                            (np.max(np.abs(refb)) + 1e-300)) < 1e-8
+                if not ok:
+                    report(ctx, "WallGoManager.setupWallSolver (off-equilibrium requested, "
+                           "fault-free directory) did not install the complete array of the "
+                           "files: collisionArray %s, includeOffEq=%r" % (
+                               "None" if ca is None else "present", ws.eom.includeOffEq), rp,
+                           key="manager:incomplete")
+            else:
+                if err is None:
+                    ca = ws.boltzmannSolver.collisionArray
+                    report(ctx, "WallGoManager.setupWallSolver with off-equilibrium requested "
+                           "and a faulty collision directory (%s) raised nothing: "
+                           "collisionArray is %s, eom.includeOffEq=%r -- the wall would be "
+                           "solved without (or with wrong) collisions; P=%d grid N=%d" % (
+                               fault, "None" if ca is None else "installed",
+                               ws.eom.includeOffEq, P, N), rp, key="manager:silent-" + (
+                               "lte" if ca is None else "wrong-array"))
+                elif classify(err) != "CollisionLoadError":
+                    report(ctx, "WallGoManager.setupWallSolver, fault `%s`: raised %s instead "
+                           "of CollisionLoadError" % (fault, exc_name(err)), rp,
+                           key="manager:error-kind")
+
+
+def all_sources():
+    import glob
+    out = {}
+    for path in sorted(glob.glob(os.path.join(vlib.SRC, "*.py"))):
+        with open(path) as f:
+            out[os.path.basename(path)] = f.read()
+    return out
+
+
 def run(ctx):
-    srcs = {n: vlib.read_src(n) for n in ("collisionArray.py", "boltzmann.py",
-                                          "polynomial.py")}
+    srcs = all_sources()
     gen_ok = True
     try:
-        gen, bas, facts = gen_collision.generate(srcs["collisionArray.py"],
-                                                 srcs["boltzmann.py"], srcs["polynomial.py"])
-        meta = dict(files=["src/WallGo/" + n for n in srcs],
-                    sha={n: vlib.sha(s) for n, s in srcs.items()})
+        gen, bas, facts = gen_collision.generate(srcs)
+        meta = dict(files=["src/WallGo/" + n for n in gen_collision.NEEDED],
+                    sha={n: vlib.sha(srcs[n]) for n in gen_collision.NEEDED},
+                    scanned_modules=len(srcs))
         ctx.write("CollisionGen.v", gen, sources=meta)
         ctx.write("BasisGen.v", bas, sources=meta)
         ctx.log("extracted: guards", facts["c_guards_every"], facts["c_guards_later"],
                 "| labels", facts["c_direct_label"], facts["c_interp_label"],
                 "| loadCollisions", facts["c_prog_pre"], facts["c_prog_try"])
         ctx.log("extracted: interp_layout =", facts["interp_term"])
+        ctx.log("extracted: fd_prog =", facts["fd_prog"], "| manager handlers =",
+                facts["manager_handlers"])
+        for path in facts["new_paths"]:
+            ctx.log("UNREVIEWED path into collision loading/conversion: %s %s: %s" % path)
+            ctx.broken.append("new call path: %s %s: %s" % path)
     except gen_collision.TranslateError as e:
         ctx.log("translator failed:", e)
         ctx.broken.append("translator: %s" % e)
@@ -703,20 +1148,53 @@ def run(ctx):
         # ---- direct validation ---------------------------------------------------------
         sizes = [(5, 5), (5, 3), (7, 5), (7, 3)] if ctx.quick else \
             [(3, 3), (5, 5), (5, 3), (7, 7), (7, 5), (7, 3), (9, 7), (9, 5), (9, 3)]
-        seed0 = 5000
+
+        def guarded(*a, **k):
+            try:
+                direct_case(ctx, root, *a, **k)
+            except Exception as e:      # noqa: BLE001
+                import traceback
+                ctx.log("direct case raised", traceback.format_exc())
+                ctx.broken.append("harness: direct case raised %r" % e)
+
         for P in (1, 2, 3):
             for (Ns, Nt), bf, br in itertools.product(sizes, BASES, BASES):
                 if P == 3 and Ns >= 9 and ctx.quick:
                     continue
-                seed0 += 20
                 pairwise = (P == 2) or (not ctx.quick) or (Ns, Nt) == (5, 3)
-                try:
-                    direct_case(ctx, root, P, Ns, bf, Nt, br, seed0, pairwise)
-                except Exception as e:      # noqa: BLE001
-                    import traceback
-                    ctx.log("direct case raised", traceback.format_exc())
-                    ctx.broken.append("harness: direct case raised %r" % e)
+                guarded(P, Ns, bf, Nt, br, rng.randrange(10 ** 6), pairwise)
+        # outside the comfortable region: the shipped stored size (11) and a larger one,
+        # coinciding rz nodes (9 -> 3), Grid3Scales with unequal tails, a uniform grid,
+        # bytes-typed "Basis Type" (what WallGoCollision writes), realistic particle names in
+        # non-sorted order, special tensors
+        extra = [
+            dict(P=1, Ns=9, Nt=3), dict(P=2, Ns=11, Nt=5), dict(P=1, Ns=11, Nt=11),
+            dict(P=2, Ns=7, Nt=5, grid="3scales"), dict(P=2, Ns=5, Nt=5, grid="3scales"),
+            dict(P=2, Ns=7, Nt=5, grid="uniform"),
+            dict(P=2, Ns=7, Nt=5, opts=dict(bytes=True)),
+            dict(P=3, Ns=5, Nt=3, names=["top", "gluon", "W"]),
+            dict(P=2, Ns=5, Nt=5, names=["psiR", "Zb"]),
+        ] + [dict(P=2, Ns=7, Nt=5, opts=dict(special=sp_)) for sp_ in SPECIALS[1:]] + \
+            [dict(P=2, Ns=5, Nt=5, opts=dict(special=sp_)) for sp_ in ("int", "zero")]
+        if not ctx.quick:
+            extra += [dict(P=2, Ns=13, Nt=7), dict(P=1, Ns=21, Nt=11),
+                      dict(P=3, Ns=11, Nt=7, grid="3scales", names=["W", "top", "gluon"]),
+                      dict(P=2, Ns=9, Nt=5, grid="uniform")]
+        for e in extra:
+            for bf, br in (itertools.product(BASES, BASES) if not ctx.quick else
+                           [(rng.choice(BASES), rng.choice(BASES)),
+                            ("Chebyshev", "Chebyshev")]):
+                guarded(e["P"], e["Ns"], bf, e["Nt"], br, rng.randrange(10 ** 6),
+                        e["P"] == 2 and e["Ns"] <= 7, names=e.get("names"),
+                        grid=e.get("grid", "plain"), opts=e.get("opts"))
         fault_sequences(ctx, root, rng, ctx.n(40, 400))
+        try:
+            histories(ctx, root, rng, ctx.n(8, 80))
+            manager_route(ctx, root, rng, ctx.n(5, 50))
+        except Exception as e:      # noqa: BLE001
+            import traceback
+            ctx.log("history / manager run raised", traceback.format_exc())
+            ctx.broken.append("harness: history run raised %r" % e)
     finally:
         shutil.rmtree(root, ignore_errors=True)
     for key, cnt in sorted(getattr(ctx, "_c14_seen", {}).items()):
@@ -766,20 +1244,28 @@ def replay(rep):
                                "load_raises"):
             k = rep["case"]
             direct_case(c, root, k["P"], k["Ns"], k["stored_basis"], k["Nt"],
-                        k["requested_basis"], k["seed0"], True)
+                        k["requested_basis"], k["seed0"], True, names=k.get("names"),
+                        grid=k.get("grid", "plain"), opts=k.get("opts"))
+        elif rep.get("kind") == "history":
+            history_case(c, root, rep["case"])
+        elif rep.get("kind") == "manager":
+            manager_case(c, root, rep["case"])
         elif rep.get("kind") == "faults":
             k = rep["case"]
             b = make_solver(k["N"], k["req"])
             b.updateParticleList([particle(x) for x in NAMES[:k["P"]]])
             for fault, spec in k["seq"]:
+                fault = fault.split("+")[0] if fault == "missing_dir" else fault
                 d = pathlib.Path(root) / "does_not_exist" if fault == "missing_dir" \
                     else write_dir(root, spec)
                 before = b.collisionArray
                 try:
                     b.loadCollisions(d)
                     print(fault, "-> loaded")
+                    if fault != "none":
+                        c.failed = True
                 except Exception as e:      # noqa: BLE001
-                    print(fault, "->", type(e).__name__, "| array kept:",
+                    print(fault, "->", exc_name(e), "| array kept:",
                           b.collisionArray is before)
                     if classify(e) != "CollisionLoadError" or b.collisionArray is not before:
                         c.failed = True
